@@ -60,7 +60,9 @@ class World:
             comps = [(c.label, np.array(src.d0.get_component(c).data)) for c in src.d0.main_components]
         for name, arr in comps:
             self.d0.add_component(arr, name)
-        self.d0.add_component(self.d0.id["a"] * 2 + 1, "der")
+        self.plain = bool(spec.get("plain")) if src is None else src.plain
+        if not self.plain:      # (a plain collection has no links of any kind except the one the history manages)
+            self.d0.add_component(self.d0.id["a"] * 2 + 1, "der")
         if src is None:
             p = np.arange(N1, dtype=float)
         else:
@@ -321,7 +323,8 @@ def observe(w, obs_specs):
             out["hist/g%d" % gi] = np.asarray(h).tolist()
         except Exception as e:  # noqa
             out["hist/g%d" % gi] = "raises:" + type(e).__name__
-    out["derived"] = np.asarray(w.d0[w.d0.id["der"]]).tolist()
+    if not w.plain:
+        out["derived"] = np.asarray(w.d0[w.d0.id["der"]]).tolist()
     out["stat/all"] = float(np.nan_to_num(w.d0.compute_statistic("sum", w.d0.id["a"])))
     try:
         out["linked/d1.a"] = np.asarray(w.d1[w.d0.id["a"]]).tolist()
@@ -358,7 +361,8 @@ def fn_history(spec, rec):
                     other.add_component(np.array(["x", "y", "z", "y"] * n)[:n].reshape(shape), c.label)
                 else:
                     other.add_component((np.arange(n, dtype=float) + op[1]).reshape(shape), c.label)
-            other.add_component(other.id["a"] * 2 + 1, "der")
+            if not w.plain:
+                other.add_component(other.id["a"] * 2 + 1, "der")
             if shape != w.d0.shape and any(type(s).__name__ in ("MaskSubsetState", "FloodFillSubsetState", "ElementSubsetState") for g in w.groups for _, s in nodes_of(g.subset_state)):
                 continue   # a mask selection is tied to the old grid; refreshing to a new shape under it is not a cache question
             w.d0.update_values_from_data(other)
@@ -585,8 +589,12 @@ core_op = st.one_of(
 ).map(list)
 
 
+link_op = st.one_of(st.tuples(st.just("read")), st.tuples(st.just("relink"), idx, idx, idx), st.tuples(st.just("relink"), idx, idx, idx),
+                    st.tuples(st.just("relink"), st.just(0), idx, idx), st.tuples(st.just("update_components"), idx, idx, st.booleans())).map(list)
+
+
 @st.composite
-def core_cases(draw):
+def core_cases(draw, ops=None):
     shape = draw(st.sampled_from([[5], [5], [2, 3]]))
     n = int(np.prod(shape))
     dspec = {"label": "d0", "shape": shape, "coords": None,
@@ -595,10 +603,16 @@ def core_cases(draw):
     a = draw(st.lists(st.integers(-3, 5).map(float), min_size=n, max_size=n))
     kinds = [k for k in LEAF_KINDS if len(shape) == 1 or k not in ("catroi", "category")]
     groups = [draw(gen.tree_spec(dspec, max_leaves=3, kinds=kinds)) for _ in range(draw(st.integers(1, 3)))]
+    if ops is not None:
+        # link-focused histories: the first group is defined on the linked attribute alone, so that the other dataset can
+        # evaluate it through the link (and no longer can once the link is gone)
+        on_a = st.builds(lambda o, v: {"t": "ineq", "att": ["c", 0], "op": o, "val": v}, st.sampled_from(["gt", "le", "ge", "lt"]), st.integers(-2, 4).map(float))
+        groups[0] = draw(st.one_of(on_a, st.builds(lambda x: {"t": "not", "a": x}, on_a), st.builds(lambda x, y, t: {"t": t, "a": x, "b": y}, on_a, on_a, st.sampled_from(["and", "or", "xor"])),
+                                   st.builds(lambda lo: {"t": "range", "att": ["c", 0], "lo": lo, "hi": lo + 2.0}, st.integers(-2, 3).map(float))))
     spare = draw(gen.tree_spec(dspec, max_leaves=2, kinds=kinds))
     views = [draw(gen.view_spec(shape, ("single", "tuple", "bool"))) for _ in range(draw(st.integers(0, 2)))]
-    return {"shape": shape, "a": a, "link": draw(st.sampled_from([None, "shift", "double"])), "groups": groups, "spare": spare,
-            "views": views, "ops": draw(st.lists(core_op, min_size=2, max_size=20))}
+    return {"shape": shape, "a": a, "plain": draw(st.booleans()), "link": draw(st.sampled_from([None, "shift", "double"])), "groups": groups, "spare": spare,
+            "views": views, "ops": draw(st.lists(core_op if ops is None else ops, min_size=2, max_size=20 if ops is None else 8))}
 
 
 hist_op = st.one_of(st.tuples(st.just("read")), st.tuples(st.just("x_att"), idx), st.tuples(st.just("limits"), idx, idx),
@@ -614,9 +628,10 @@ viewer_cases = st.fixed_dictionaries({"viewer": st.sampled_from(["histogram", "p
 
 
 def checks(tier):
-    n = {"quick": (320, 480, 16), "thorough": (40000, 40000, 640)}.get(tier, (10, 10, 2))
+    n = {"quick": (320, 480, 16, 320), "thorough": (40000, 40000, 640, 20000)}.get(tier, (10, 10, 2, 10))
     return [
         Check("core_histories", fn_history, strategy=core_cases(), examples=n[0]),
+        Check("link_histories", fn_history, strategy=core_cases(ops=link_op), examples=n[3]),
         Check("histogram_layer_state", fn_hist_state, strategy=hist_cases, examples=n[1]),
         Check("live_viewer_updates", fn_viewer, strategy=viewer_cases, examples=n[2]),
     ]
